@@ -238,7 +238,11 @@ func TestVF_C33_SQLS3(t *testing.T) {
 			p.Segs[i].Key = prefix + p.Segs[i].Key
 			splits[i] = make([]bool, p.Segs[i].N)
 			for j := 1; j < p.Segs[i].N; j++ {
-				splits[i][j] = rapid.Bool().Draw(rt, "new-batch")
+				if p.Segs[i].N > 8 {
+					splits[i][j] = j%512 == 0
+				} else {
+					splits[i][j] = rapid.Bool().Draw(rt, "new-batch")
+				}
 			}
 			b, err := c33SegmentBytes(p.Segs[i], splits[i])
 			if err != nil {
